@@ -100,15 +100,34 @@ func genSiCase(t *rapid.T) siCase {
 		}
 		init = sortedKeys(m)
 	}
-	c := siCase{Init: init, Spare: rapid.SampledFrom([]int{0, 0, 1, 3, 16}).Draw(t, "spare")}
+	if rapid.IntRange(0, 9).Draw(t, "hugeinit") == 0 {
+		// hundreds of elements: anything that happens at a capacity or length threshold (64, 128, 256, ...) and on shrinking
+		m := map[int]bool{}
+		for i := rapid.IntRange(100, sz(400, 1500)).Draw(t, "hugelen"); i > 0; i-- {
+			m[rapid.IntRange(-50, 3000).Draw(t, "hv")] = true
+		}
+		init = sortedKeys(m)
+	}
+	c := siCase{Init: init, Spare: rapid.SampledFrom([]int{0, 0, 1, 3, 16, 64, 200, 1000}).Draw(t, "spare")}
 	n := rapid.IntRange(1, sz(12, 40)).Draw(t, "nops")
 	cur := setOf(c.Init)
+	drain := 0 // > 0: the next ops remove present elements one by one (a long run of Removes)
+	if len(init) >= 16 && rapid.IntRange(0, 2).Draw(t, "drain") == 0 {
+		drain = rapid.IntRange(len(init)/2, len(init)).Draw(t, "drainlen")
+		n += drain
+	}
 	for i := 0; i < n; i++ {
 		k := rapid.SampledFrom([]string{"add", "add", "remove", "union"}).Draw(t, "kind")
+		if drain > 0 && i >= 2 {
+			k = "remove"
+		}
 		var args []int
 		switch k {
 		case "add":
 			m := rapid.IntRange(0, 6).Draw(t, "nargs")
+			if rapid.IntRange(0, 5).Draw(t, "manyargs") == 0 {
+				m = rapid.IntRange(7, 40).Draw(t, "nargsMany") // batches of 8, 16, 32+ arguments
+			}
 			present := sortedKeys(cur)
 			for j := 0; j < m; j++ {
 				switch {
@@ -122,8 +141,21 @@ func genSiCase(t *rapid.T) siCase {
 			}
 		case "remove":
 			args = []int{genValue(t)}
+			if present := sortedKeys(cur); len(present) > 0 && (drain > 0 || rapid.Bool().Draw(t, "removePresent")) {
+				args = []int{present[rapid.IntRange(0, len(present)-1).Draw(t, "which")]}
+				if drain > 0 {
+					drain--
+				}
+			}
 		case "union":
 			args = genSet(t, 6)
+			if rapid.IntRange(0, 7).Draw(t, "bigunion") == 0 {
+				m := map[int]bool{}
+				for j := rapid.IntRange(16, 200).Draw(t, "ulen"); j > 0; j-- {
+					m[rapid.IntRange(-50, 3000).Draw(t, "uv")] = true
+				}
+				args = sortedKeys(m)
+			}
 		}
 		c.Ops = append(c.Ops, siOp{Kind: k, Args: args})
 		switch k {
@@ -235,6 +267,23 @@ func genSfCase(t *rapid.T) sfCase {
 		if rapid.Bool().Draw(t, "swap") {
 			c.A, c.B = c.B, c.A
 		}
+		return c
+	}
+	if rapid.IntRange(0, 11).Draw(t, "bothlong") == 0 {
+		// two sets of hundreds of elements (lengths around 256, 512, 1024 included)
+		mk := func(label string) []int {
+			m := map[int]bool{}
+			target := rapid.SampledFrom([]int{100, 255, 256, 257, 300, 511, 512, 513, 700, 1023, 1024, 1025, 1500}).Draw(t, label+"len")
+			if !Thorough {
+				target = min(target, 600)
+			}
+			hi := rapid.SampledFrom([]int{2 * target, 4 * target, 70000}).Draw(t, label+"range")
+			for len(m) < target {
+				m[rapid.IntRange(-50, hi).Draw(t, label+"v")] = true
+			}
+			return sortedKeys(m)
+		}
+		c.A, c.B = mk("a"), mk("b")
 		return c
 	}
 	if rapid.IntRange(0, 3).Draw(t, "subset") == 0 && len(c.A) > 0 {
